@@ -195,6 +195,21 @@ def check_vector(v):
         n += 1
         if o != ("ok", ([sq[::-1].upper() for sq in seqs], [sq.upper() for sq in seqs])):
             rep("Genome.read_sequence(other file) / read_sequence() do not read the file that was asked for", "read_sequence", [sq[::-1] for sq in seqs], o)
+    if not crlf and len(names) >= 2:
+        # ONE sequence object asked with intervals whose contig column is encoded by two genomes that list the contigs in opposite orders
+        # (then by the first again): every interval gets the bases of the contig it names, whatever was asked before
+        def two_orders():
+            from bionumpy.datatypes import Interval as _Iv
+            g1 = bnp.Genome.from_file(path, filter_function=None)
+            g2 = bnp.Genome.from_dict({nm: len(sq) for nm, sq in reversed(list(zip(names, seqs)))})
+            seq_ = g1.read_sequence()
+            part = _Iv(list(names), np.zeros(len(names), dtype=int), np.array([max(1, len(sq) - 1) for sq in seqs]))
+            return [[x.upper() for x in seq_[g_.get_intervals(part)].tolist()] for g_ in (g1, g2, g1)]
+        o = outcome(two_orders)
+        n += 1
+        want2 = [sq[:max(1, len(sq) - 1)].upper() for sq in seqs]
+        if o != ("ok", [want2, want2, want2]):
+            rep("one sequence object asked through genomes listing the contigs in two orders does not give every interval its own contig", "read_sequence[two contig orders]", want2, o)
     key = json.dumps([recs, finalnl, crlf])
     return {"n": n, "nt": [key] if multiline else [], "bad": bad}
 
@@ -305,6 +320,8 @@ def run(ctx):
     big = ctx.tlc("MC_C17big", tag="MC_C17big", spec="BigSpec", constants={"MaxRecs": 1, "MaxL": 1, "MaxW": 1, "FinalNL": True, "BlankEnd": False, "MaxFetch": 1, "CRLF": False}, invariants=["EmitBig", "ReadBoundaryAtLineEnd"])
     bv = dict(big.vectors[0], _dir=ctx.work)
     ctx.absorb([check_big(bv)])
+    big2 = ctx.tlc("MC_C17big", tag="MC_C17big_six", spec="BigSpec2", constants={"MaxRecs": 1, "MaxL": 1, "MaxW": 1, "FinalNL": True, "BlankEnd": False, "MaxFetch": 1, "CRLF": False}, invariants=["EmitBig"])
+    ctx.absorb([check_big(dict(big2.vectors[0], _dir=ctx.work))])
     bigc = ctx.tlc("MC_C17big", tag="MC_C17big_crlf", spec="BigSpec", constants={"MaxRecs": 1, "MaxL": 1, "MaxW": 1, "FinalNL": True, "BlankEnd": False, "MaxFetch": 1, "CRLF": True}, invariants=["EmitBig"])
     ctx.absorb([check_big(dict(bigc.vectors[0], _dir=ctx.work))])
     ctx.exhaustive = True
